@@ -434,11 +434,12 @@ invariant on stored nodes; `InFrag` / `FragRun` are the side conditions of the p
 /-- Full statement: every program of definition / modification / injection / import lines runs
     in the model exactly as in the specification — without side conditions.  Proved parts:
     `C17_refinement_partial` (flat programs), `C17_refinement_nested_partial` (lines nested by
-    indentation, group lines, property lines), `C17_refinement_rejected` (wildcard / missing
-    injections are errors on both sides).  Still missing: declared nodes inside the invariant
-    (`Inv` requires every stored node to hold a value), import lines below an indented group (the
-    nested theorem keeps import lines at the root), `$unit` / option / `@case` hosts by reference as
-    refinement statements, and dropping the side conditions. -/
+    indentation, group lines, property lines), `C17_refinement_nested_imports_partial` (the same
+    with import lines at any indentation, below indented groups), `C17_refinement_rejected`
+    (wildcard / missing injections are errors on both sides); `C17_refinement_checked_partial`
+    states the flat part with its side conditions as an executable check.  Still missing: declared
+    nodes inside the invariant (`Inv` requires every stored node to hold a value), `$unit` / option /
+    `@case` hosts by reference as refinement statements, and dropping the side conditions. -/
 def C17_refinement_statement : Prop :=
   ∀ (tbl : UnitTable) (stmts : List SStmt) (items : List Item) (env : Env) (s' : SEnv),
     Inv tbl env → stmts.mapM conc = some items → sRun tbl (absEnv env) stmts = .ok s' →
